@@ -5,6 +5,7 @@ import Pyrtma.Proofs.ManagerSimRun
 import Pyrtma.Proofs.ManagerSimOrigin
 import Pyrtma.Proofs.ManagerSimConn
 import Pyrtma.Proofs.ManagerSimOwedDep
+import Pyrtma.Proofs.ManagerSimOwedSeg
 /-!
 # C14 — undeliverable messages are reported, not silently lost
 
@@ -302,5 +303,38 @@ example : (removeModule {} (fwdTop {}) exDep 1).out =
       [.close 1, .send 3 1 (failedFrame {} 11 (closedFrame {} { uid := 1, modId := 10 }))] ∧
     closeN (removeModule {} (fwdTop {}) exDep 1).out = 1 ∧
     fcnt 3 (Bc {} 11) (removeModule {} (fwdTop {}) exDep 1).out = 1 := by decide
+
+/-- **PARTIAL (the C14 clause of `Spec.checkDepartures` on the events of one frame; the call sites of `Spec.segment` are
+not instantiated).**  The model reads a frame from `rd.uid` in a crash-free state `s` and handles it, possibly followed by
+the periodic section (`q = true`); `evs` are the events after the `rd` marker.  `A2` is an abstract state that simulates
+the model's state at the end, `X` an abstract state from which `A2` arises by applying the departures of `evs` (same
+writable set and failure environment).  Then `Spec.checkDepartures cfg X md evs` adds no C14 entry (`ErrExt ["C07"]`: the
+only entries it can add are C07's, which `C07.spec_departure_clauses_pass_on_model` excludes): every observer of
+FAILED_MESSAGE that stays and can take it got one notice `failed d CLIENT_CLOSED 0 0` per departure and per subscriber of
+CLIENT_CLOSED with id `d` that stays, is not ready to accept data and is no logger.
+In the Spec's own run `A2 = Spec.segment cfg a rd evs` simulates the end state (`segment_ok`, C07 link) and in every branch
+of `Spec.segment` the state `X` that `checkDepartures` is evaluated on stands in this relation to it
+(`segment … = applyDepartures (… X …) evs` up to error entries); this instantiation, branch by branch, is what is
+missing, and so is the stretch before the first read of a round. -/
+theorem spec_departure_count_clause_passes_partial (cfg : Cfg) (ok : CfgOK cfg) (hfuel : cfg.fuel = 0) (hperm : OrdPerm cfg)
+    {s : State} (h : Top cfg s) (rd : Read) (q : Bool) (evs : List Ev)
+    (he : (if q then ticks cfg (readOne cfg s rd) else readOne cfg s rd).out = s.out ++ Ev.rd rd.uid :: evs)
+    {A2 X : Spec.A} (hs : Sim cfg A2 (if q then ticks cfg (readOne cfg s rd) else readOne cfg s rd))
+    (hXm : (Spec.applyDepartures X evs).mods = A2.mods) (hXw : X.w = A2.w) (hXf : X.fail = A2.fail) (md : Option Nat) :
+    Spec.ErrExt ["C07"] X (Spec.checkDepartures cfg X md evs) := by
+  have hall := OrdAll_of_perm hperm
+  have c1 := ct_readOne ok hall hfuel h rd
+  have c2 : CT cfg s (if q then ticks cfg (readOne cfg s rd) else readOne cfg s rd) := by
+    cases q
+    · exact c1
+    · exact c1.nest (fun h' => ct_ticks ok hall hfuel h') (ticks_nest cfg _)
+  generalize (if q then ticks cfg (readOne cfg s rd) else readOne cfg s rd) = s2 at he hs c2
+  refine Spec.checkDepartures_c14 cfg X md evs (dep_c14_end hs c2.top.aopen evs hXm hXw hXf (fun o d U hU => ?_))
+  obtain ⟨ext, oe, p⟩ := c2.cnt o d U hU
+  have : ext = Ev.rd rd.uid :: evs := List.append_cancel_left (oe.symm.trans he)
+  subst this
+  intro hst hUo
+  have := p hst hUo
+  simpa [closeN, fcnt] using this
 
 end Pyrtma.C14
